@@ -18,6 +18,7 @@ func main() {
 	prop := flag.String("prop", "", "property id")
 	tier := flag.String("tier", "quick", "quick | thorough")
 	only := flag.String("only", "", "run only harnesses whose name contains this string (development)")
+	variant := flag.String("variant", "", "run only the variant with this label (development)")
 	workers := flag.Int("workers", 16, "parallel engines")
 	keep := flag.Bool("keep", false, "keep scratch directories")
 	verbose := flag.Bool("v", false, "verbose")
@@ -38,7 +39,7 @@ func main() {
 		fmt.Fprintf(os.Stderr, "unknown property %q\n", *prop)
 		os.Exit(2)
 	}
-	r := &runner{spec: spec, tier: *tier, only: *only, workers: *workers, keep: *keep, verbose: *verbose}
+	r := &runner{spec: spec, tier: *tier, only: *only, variantOnly: *variant, workers: *workers, keep: *keep, verbose: *verbose}
 	if *replay != "" {
 		rec, err := loadReplay(*replay)
 		if err != nil {
